@@ -535,6 +535,7 @@ type Contract struct {
 	Asserts  map[int][]Clause
 	After    map[string][]Clause // "callee#k" -> lemmas proved (then assumed) right after that call
 	Before   map[string][]Clause // "callee#k" -> assertions proved right before that call
+	CoverBefore map[string][]Clause // "callee#k" -> conditions under which that call must be reachable
 	AtReturn []Clause            // assertions over the locals, proved at every return of the function
 }
 
@@ -571,7 +572,7 @@ func newSpecSet() *SpecSet {
 }
 
 var clauseKW = map[string]bool{"func": true, "method": true, "closure": true, "requires": true, "ensures": true, "modifies": true,
-	"decreases": true, "loop": true, "trusted": true, "pure": true, "noinline": true, "spec": true, "axiom": true, "lemma": true, "package": true, "assert": true, "invariant": true, "establishes": true, "inline": true}
+	"decreases": true, "loop": true, "trusted": true, "pure": true, "noinline": true, "spec": true, "axiom": true, "lemma": true, "package": true, "assert": true, "invariant": true, "establishes": true, "inline": true, "cover": true}
 
 // parseContractLines parses the "//@" lines of one file. pkgPath is the Go package whose scope resolves type names.
 func (ss *SpecSet) parseContractLines(lines []string, pkgPath, file string) error {
@@ -713,6 +714,25 @@ func (ss *SpecSet) parseContractLines(lines []string, pkgPath, file string) erro
 				cur.Pure = true
 			case "noinline":
 				cur.NoInline = true
+			case "cover":
+				// cover before Callee#k <expr>
+				f := strings.Fields(rest)
+				if len(f) < 3 || f[0] != "before" {
+					return fmt.Errorf("%s: bad clause %q (cover before Callee#k expr)", file, st)
+				}
+				key := strings.TrimSuffix(f[1], ":")
+				body := strings.TrimSpace(strings.TrimPrefix(strings.TrimSpace(strings.TrimPrefix(rest, "before")), f[1]))
+				c, err := mk(body)
+				if err != nil {
+					return err
+				}
+				if !strings.Contains(key, "#") {
+					key += "#1"
+				}
+				if cur.CoverBefore == nil {
+					cur.CoverBefore = map[string][]Clause{}
+				}
+				cur.CoverBefore[key] = append(cur.CoverBefore[key], c)
 			case "establishes":
 				cur.Establishes = true
 			case "inline":
